@@ -637,6 +637,11 @@ func (it *Interp) runBlocks(fr *frame) Value {
 			if it.steps > it.stepLimit {
 				it.ex.UnwindFails++
 				it.ex.Truncated = "step budget exhausted at " + it.site(instr)
+				// possible non-termination: reported only if the native replay hangs too
+				it.ex.report("unwind", fr.fn.String(), "step budget exhausted (possible non-termination)")
+				if n := len(it.ex.Violations); n > 0 && it.ex.Violations[n-1].Kind == "unwind" {
+					it.ex.Violations[n-1].Key = "unwind|" + fr.fn.String() + "|step budget"
+				}
 				panic(abortRun{"step budget"})
 			}
 			fr.cur = instr
